@@ -12,7 +12,7 @@ package rest
 //@   requires d != nil && d.witness != nil && d.witSigV != nil && d.client != nil && l.Verifier != nil
 //@   requires counterDistRestAttempt != nil && counterDistRestSuccess != nil && counterDistRestAttempt != counterDistRestSuccess
 //@   modifies n_ro, ro_err, n_gl, gl_err, gl_val, gl_h, n_glc, glc_id, glc_out, glc_err, cnt
-//@   modifies req_method, req_url, req_body, rdr_bytes, n_do, do_method, do_url, do_body, do_err, do_status, do_final_method, do_resp_body, rd_buf
+//@   modifies req_method, req_url, req_body, rdr_bytes, n_do, do_method, do_url, do_body, do_err, do_status, do_final_method, do_resp_body, rd_buf, req_ctx, do_ctx, n_noctx
 //@   ghostmodifies n_dfl, n_dfl_fail
 //@   ensures[ghost] n_dfl == old(n_dfl) + 1 && n_dfl_fail == old(n_dfl_fail) + (err != nil ? 1 : 0)
 //@   // the witness is asked once, for this log's ID; at most one request goes out
@@ -22,6 +22,9 @@ package rest
 //@   ensures[C15.2,C12.dist] sent ==> do_url == urlStr(d.baseURL ++ "/distributor/v0/logs/" ++ l.ID ++ "/byWitness/" ++ pathEsc(vname(d.witSigV)) ++ "/checkpoint")
 //@   // ... and only after it verified under the log's key and origin with exactly two verified signatures: the log's and the witness's
 //@   ensures[C15.3] sent ==> parsesAs2(glc_out, l.Origin, l.Verifier, d.witSigV) && nVerified2(glc_out, l.Verifier, d.witSigV) == 2
+//@   // the PUT carries the caller's context
+//@   ensures[C19.ctx,C15.ctx] ctx != noCtx() ==> n_noctx == old(n_noctx)
+//@   ensures[C19.ctx,C15.ctx] sent ==> do_ctx == ctx
 //@   // every failing step is reported
 //@   ensures[C15.4] glc_err != nil ==> err != nil && !sent
 //@   ensures[C15.4] sent && do_err != nil ==> err != nil
@@ -35,7 +38,7 @@ package rest
 //@   requires counterDistRestAttempt != nil && counterDistRestSuccess != nil && counterDistRestAttempt != counterDistRestSuccess
 //@   requires forall j int :: 0 <= j && j < len(d.logs) ==> d.logs[j].Verifier != nil
 //@   modifies n_ro, ro_err, n_gl, gl_err, gl_val, gl_h, n_glc, glc_id, glc_out, glc_err, cnt
-//@   modifies req_method, req_url, req_body, rdr_bytes, n_do, do_method, do_url, do_body, do_err, do_status, do_final_method, do_resp_body, rd_buf, n_dfl, n_dfl_fail
+//@   modifies req_method, req_url, req_body, rdr_bytes, n_do, do_method, do_url, do_body, do_err, do_status, do_final_method, do_resp_body, rd_buf, req_ctx, do_ctx, n_noctx, n_dfl, n_dfl_fail
 //@   // every configured log is attempted (a failure does not stop the others), and the result reports whether any failed
 //@   ensures[C15.6] n_dfl == old(n_dfl) + len(d.logs)
 //@   ensures[C15.6] (err != nil) == (n_dfl_fail != old(n_dfl_fail))
